@@ -225,7 +225,9 @@ class Pdur(FilterPattern):  # Was Pfindur.
                 if bi.roundup(next_elapsed, tolerance) >= local_dur:
                     remaining = local_dur - elapsed
                     inevent = inevent.copy()
-                    inevent['delta'] = type(delta)(remaining)
+                    if not isinstance(delta, int):  # int floors it.
+                        remaining = type(delta)(remaining)
+                    inevent['delta'] = remaining
                     return (yield inevent)
                 elapsed = next_elapsed
                 inevent = yield inevent
